@@ -56,13 +56,69 @@ fn to_primitive_number(value: &Value) -> Option<f64> {
     }
 }
 
+/// Convert a string to a number the way JavaScript's `Number(string)` does
+/// (ECMA-262 StringToNumber), returning None where that yields NaN.
+///
+/// Surrounding whitespace is ignored, the empty string is 0, `Infinity` (with
+/// an optional sign, spelled exactly so) is infinite, `0x`/`0o`/`0b` prefix
+/// unsigned integers, and everything else must be a decimal literal.
 pub fn str_to_number<S: AsRef<str>>(string: S) -> Option<f64> {
-    let s = string.as_ref();
+    let s = string.as_ref().trim_matches(is_js_whitespace);
     if s == "" {
-        Some(0.0)
-    } else {
-        f64::from_str(s).ok()
+        return Some(0.0);
     }
+    let bytes = s.as_bytes();
+    if bytes.len() >= 2 && bytes[0] == b'0' {
+        let radix = match bytes[1] {
+            b'x' | b'X' => Some(16),
+            b'o' | b'O' => Some(8),
+            b'b' | b'B' => Some(2),
+            _ => None,
+        };
+        if let Some(radix) = radix {
+            return radix_literal(&s[2..], radix);
+        }
+    }
+    let unsigned = match bytes[0] {
+        b'+' | b'-' => &s[1..],
+        _ => s,
+    };
+    if unsigned == "Infinity" {
+        return Some(if bytes[0] == b'-' {
+            f64::NEG_INFINITY
+        } else {
+            f64::INFINITY
+        });
+    }
+    // What is left must be a decimal literal. Rust's parser agrees with
+    // JavaScript on those, but it also accepts "inf", "infinity" and "nan"
+    // in any case, which JavaScript does not.
+    match unsigned.as_bytes().first() {
+        Some(b'0'..=b'9') | Some(b'.') => f64::from_str(s).ok(),
+        _ => None,
+    }
+}
+
+/// StrWhiteSpaceChar: WhiteSpace and LineTerminator of ECMA-262.
+fn is_js_whitespace(c: char) -> bool {
+    match c {
+        '\u{9}' | '\u{a}' | '\u{b}' | '\u{c}' | '\u{d}' | ' ' | '\u{a0}' | '\u{1680}'
+        | '\u{2000}'..='\u{200a}' | '\u{2028}' | '\u{2029}' | '\u{202f}' | '\u{205f}'
+        | '\u{3000}' | '\u{feff}' => true,
+        _ => false,
+    }
+}
+
+/// The digits of a `0x` / `0o` / `0b` literal.
+fn radix_literal(digits: &str, radix: u32) -> Option<f64> {
+    if digits.is_empty() {
+        return None;
+    }
+    let mut value: f64 = 0.0;
+    for c in digits.chars() {
+        value = value * (radix as f64) + (c.to_digit(radix)? as f64);
+    }
+    Some(value)
 }
 
 enum Primitive {
